@@ -49,6 +49,8 @@ SmokeTerms == {
   TUnsafe(6, TRValue(5, TStr(1, P(1)))), TSafe(6, TRValue(5, TInt(1, 4))),
   \* redactables that end in a truncated sequence / in a line feed, alone
   TRStr(1, StartM \o <<A>> \o EndM \o <<A, 226>>), TRBytes(1, <<A, 226, 128>>), TRStr(1, <<A, NL>>),
+  \* a redactable that carries an empty envelope (as EscapeBytes(nil) makes one): copied as it is by every route
+  TRStr(1, <<A>> \o StartM \o EndM \o <<A>>), TRBytes(1, StartM \o EndM),
   \* channels and funcs (printed as pointers)
   TChan(1), TFunc(1), TSlice(9, <<TChan(1), TFunc(2)>>), TUnsafe(2, TChan(1)), TSafe(2, TFunc(1)), TStruct(9, <<TChan(1), TFunc(2)>>, <<FALSE, TRUE>>),
   \* reflect.Values obtained through an unexported field (not interfaceable)
@@ -284,7 +286,7 @@ QErrFormats == ErrDirs2 \cup {x \o Fcolon \o y : x \in ErrDirs2, y \in ErrDirs2}
 ErrOperand(kind, i) ==
   CASE kind = "er"     -> ErObj(i)
     \* (its Format method shows the verb it was called with: a correctly used %w must reach it as %v)
-    [] kind = "erfm"   -> TObj(i, {"ER", "FM"}, <<>>, <<SWrite(P(i + 5)), SWriteVerb>>, P(i), <<>>)
+    [] kind = "erfm"   -> TObj(i, {"ER", "FM"}, <<>>, <<SWrite(P(i + 5)), SWriteVerb, SWriteFlags>>, P(i), <<>>)
     [] kind = "erempty" -> TObj(i, {"ER"}, <<>>, <<>>, <<>>, <<>>)                  \* an error whose message is empty
     [] kind = "ersf"   -> TObj(i, {"ER", "SF"}, <<SSafeString(P(600 + i)), SUnsafeString(P(700 + i))>>, <<>>, P(i), <<>>)
     [] kind = "ersm"   -> TObj(i, {"ER", "SM"}, <<>>, <<>>, P(i), <<>>)
@@ -372,7 +374,8 @@ DIdx0S  == <<37, 91, 48, 93, 42, 100>>                      \* %[0]*d
 DIdx0P  == <<37, 46, 91, 48, 93, 42, 100>>                  \* %.[0]*d
 DIdx10  == <<37, 91, 49, 93, 100, 32, 37, 91, 48, 93, 118>> \* %[1]d %[0]v
 DIdxSP  == <<37, 91, 49, 93, 42, 46, 50, 118>>              \* %[1]*.2v
-DirFormats == {DStar, DmStar, DpStar, DIdx21, DIdx3, DIdxW, DTwo, DThree, DNoVerb, DBang, DPct, Fv, <<A>>, FZ \o Fv,
+\* (<<>>: the empty format -- every operand is surplus)
+DirFormats == {DStar, DmStar, DpStar, DIdx21, DIdx3, DIdxW, DTwo, DThree, DNoVerb, DBang, DPct, Fv, <<A>>, <<>>, FZ \o Fv,
                DIdx0, DIdx0S, DIdx0P, DIdx10, DIdxSP}
 DirOperands == {UStr(10), UInt(10), SafeStr(10), SVObj(10), TNil(10), StObj(10), TInt(10, 6), TInt(10, -4), SafeInt(10), TRValue(10, UInt(11)), TUnsafe(10, UInt(11))}
 DirOperands2 == {UStr(20), TInt(20, 5), SafeStr(20), TNil(20), RegObj(20)}
@@ -420,7 +423,7 @@ RLeaf(kind, i) ==
     [] kind = "chan" -> TChan(i)                   [] kind = "func" -> TFunc(i)             [] kind = "nilptr" -> TNilPtr(i)
     [] kind = "empty" -> TStr(i, <<>>)             [] kind = "nlstr" -> TStr(i, <<A, NL, A>>)
     [] kind = "mkstr" -> TStr(i, StartM \o <<A>>)
-    [] kind = "fm" -> TObj(i, {"FM"}, <<>>, <<SWrite(<<102>> \o P(i + 1)), SWriteVerb, SWriteStr(P(i + 2))>>, <<>>, <<>>)
+    [] kind = "fm" -> TObj(i, {"FM"}, <<>>, <<SWrite(<<102>> \o P(i + 1)), SWriteVerb, SWriteFlags, SWriteStr(P(i + 2))>>, <<>>, <<>>)
     [] kind = "sf" -> TObj(i, {"SF"}, <<SSafeString(<<115>>), SUnsafeString(P(i + 1)), SSafeInt(i + 2, 12)>>, <<>>, <<>>, <<>>)
     [] kind = "sfnum" -> TObj(i, {"SF"}, <<SSafeInt(i + 1, 12), SSafeString(<<58>>), SSafeUint(i + 2, 7), SSafeFloat(i + 3)>>, <<>>, <<>>, <<>>)
     [] kind = "stpan" -> TObj(i, {"ST"}, <<>>, <<>>, <<>>, <<TStr(i + 1, P(i + 1))>>)
